@@ -139,9 +139,72 @@ def clause_key_package(prog, rep):
         ]
         for key, pred, txt in dec:
             rep.check(err_depends_on(prog, f, pred), "key-package-bound", "refuses/%s" % key, txt, "no error exit depends on the check that %s" % txt, f.loc())
+        clause_strict_numerals(prog, rep, f)
         vg = A.variant_guard_fns(prog, "Error", "KeyPackageIdentityMismatch")
         rep.check(f.path in vg, "key-package-bound", "identity-mismatch-propagates", "KeyPackageIdentityMismatch propagates out of parse_key_package",
                   "parse_key_package no longer fails with KeyPackageIdentityMismatch", f.loc())
+
+
+INT_TYPES = ("u8", "u16", "u32", "u64", "u128", "usize", "i8", "i16", "i32", "i64", "i128", "isize")
+
+
+def _sign_tolerant_parse(c):
+    """std's integer parsers accept a leading `+` (and `-` for signed types): `u16::from_str_radix("+00a", 16)` is 10"""
+    if c.krate not in ("core", "std", "alloc"):
+        return False
+    if c.name == "from_str_radix":
+        return True
+    if c.name in ("parse", "from_str") and any(x in INT_TYPES for x in (c.gen or []) + [last_seg(c.self_ty or "")]):
+        return True
+    return False
+
+
+def _digit_test_closures(prog, fam):
+    out = set()
+    for g in fam:
+        if g.is_closure() and any(x.name in ("is_ascii_hexdigit", "is_ascii_digit", "is_digit") for x in g.live_calls()):
+            out.add(g.path)
+            # the closure that wraps it (`.filter(|h| h.chars().all(|c| c.is_ascii_hexdigit()))`)
+            if g.parent:
+                out.add(g.parent)
+    return out
+
+
+def clause_strict_numerals(prog, rep, entry):
+    """a tag value that names a number (ciphersuite, extension ids) has one spelling: where the key-package validation hands a string to
+    one of std's sign-tolerant integer parsers, the string was first checked to consist of digits only"""
+    n = 0
+    for p in sorted(prog.extent(entry)):
+        g = prog.fns.get(p)
+        if not g or g.crate != "mdk_core" or g.is_test_like():
+            continue
+        for c in g.live_calls():
+            if not _sign_tolerant_parse(c):
+                continue
+            n += 1
+            roots = A.creators(prog, g) or [g]
+            root = roots[0]
+            fam = [q for r_ in roots for q in prog.family(r_)]
+            digit = _digit_test_closures(prog, fam)
+            ok = False
+            # (a) in the same chain: `.filter(|h| .. all hexdigit ..).and_then(|h| from_str_radix(h, 16))`
+            hosts = [(h, x) for h in fam for x in h.live_calls() if x.name in ("filter", "take_while") and any(q.path in digit for q in A.closure_args(prog, x))]
+            for a in c.args[:1]:
+                if "p" in a:
+                    og = A.origins(prog, g, a["p"][0], scope=set(q.path for q in fam), max_frames=3)
+                    if any(og.has_call(lambda y, x=x: y is x) for _, x in hosts):
+                        ok = True
+            # (b) guarded: the parse runs only on the true side of `s.chars().all(|c| c.is_ascii_hexdigit())`
+            for x in g.live_calls():
+                if x.name == "all" and any(q.path in digit for q in A.closure_args(prog, x)):
+                    te = A.bool_true_edges(g, x)
+                    if te and c.bb not in A.reach_without_edges(g, 0, te):
+                        ok = True
+            rep.check(ok, "key-package-bound", "strict-numerals/%s" % last_seg(root.path),
+                      "the string handed to %s was checked to consist of digits only" % c.name,
+                      "%s hands a tag value to %s without first checking that it consists of digits only: std's integer parsers accept a leading "
+                      "`+`, so one number has several accepted spellings (`0x+00a`)" % (root.label(), c.name), c.loc())
+    rep.extra["sign_tolerant_parses_in_key_package_validation"] = n
 
 
 def clause_welcome(prog, rep):
